@@ -156,6 +156,14 @@ func init() {
 			return &vfStatusErr{st: status.New(codes.Internal, "verif"), id: id}
 		}},
 		vfOutcome{name: "panic", fail: true, panic: true},
+		// a status error wrapped with %w: grpc's status.Code looks through the wrapping, and so does the
+		// site's predicate on the unchanged tree (a handler returning fmt.Errorf("...: %w", st) is ordinary Go)
+		vfOutcome{name: "wrapped-status-Unavailable", fail: true, mk: func(id int64) error {
+			return fmt.Errorf("verif wrapped #%d: %w", id, status.Error(codes.Unavailable, "verif"))
+		}},
+		vfOutcome{name: "wrapped-status-Internal", fail: true, mk: func(id int64) error {
+			return fmt.Errorf("verif wrapped #%d: %w", id, status.Error(codes.Internal, "verif"))
+		}},
 	)
 	vfOkOuts = append(vfOkOuts, vfOutcome{name: "nil", mk: func(int64) error { return nil }})
 	for _, c := range vfOkCodes {
@@ -168,6 +176,9 @@ func init() {
 		vfOutcome{name: "breaker.ErrServiceUnavailable-from-invoker", mk: func(int64) error { return breaker.ErrServiceUnavailable }},
 		vfOutcome{name: "foreign-error-with-status-NotFound", mk: func(id int64) error {
 			return &vfStatusErr{st: status.New(codes.NotFound, "verif"), id: id}
+		}},
+		vfOutcome{name: "wrapped-status-NotFound", mk: func(id int64) error {
+			return fmt.Errorf("verif wrapped #%d: %w", id, status.Error(codes.NotFound, "verif"))
 		}},
 	)
 }
